@@ -21,6 +21,8 @@ REQUIRED = [
     "C03_getitem_order_irrelevant",
     "C03_pieces",
     "C03_setitem_axis",
+    "C03_setitem_nd",
+    "C03_listGroups_ok",
     "C03_bounds_reversal_slice",
 ]
 BUDGET = {"quick": 4000, "thorough": 160000}
@@ -33,7 +35,7 @@ RULE = (
 )
 ASSUMPTIONS = [
     "array values are small integers (dtype promotion and float behaviour are compared against numpy by the oracle only)",
-    "N-d composition of the per-axis assignment theorem is validated by correspondence, not proved (C03_setitem_axis is per axis)",
+    "Field.__getitem__ (per-construct dice) and masks/dtypes are checked by the oracle, not by a theorem",
 ]
 
 _cfdm = None
